@@ -636,4 +636,219 @@ theorem cut_eq (c : Char) (s a b : Str) (h : cut c s = some (a, b)) : s = a ++ c
         exact ⟨fun e => hx e.symm, h2⟩
 
 
+
+/-! ## more string lemmas; namespace values in the documented forms -/
+
+theorem sl_reverse (a u : Str) : (sl a u).reverse = sl u.reverse a.reverse := by
+  simp [sl]
+
+theorem suffix_of_slashFree_sl {x a w : Str} (hx : '/' ∉ x) (h : x <:+ sl a w) : x <:+ w := by
+  rw [← List.reverse_prefix, sl_reverse] at h
+  have := prefix_of_slashFree_sl (by simpa using hx) h
+  rwa [List.reverse_prefix] at this
+
+theorem hasPrefix_star_iff (v : Str) : hasPrefix star v = true ↔ ∃ t, v = '*' :: t := by
+  cases v with
+  | nil => simp [hasPrefix, star, List.isPrefixOf]
+  | cons c t =>
+    simp only [hasPrefix, star, List.isPrefixOf, Bool.and_eq_true, beq_iff_eq, List.cons.injEq]
+    constructor
+    · rintro ⟨h, -⟩; exact ⟨t, h.symm, rfl⟩
+    · rintro ⟨t', h, -⟩; exact ⟨h.symm, by cases t <;> trivial⟩
+
+theorem hasSuffix_star_iff (v : Str) : hasSuffix star v = true ↔ ∃ t, v = t ++ ['*'] := by
+  rw [hasSuffix, List.isSuffixOf_iff_suffix]
+  constructor
+  · rintro ⟨t, h⟩; exact ⟨t, h.symm⟩
+  · rintro ⟨t, h⟩; exact ⟨t, h.symm⟩
+
+theorem dropLast_append_singleton (a : Str) (c : Char) : (a ++ [c]).dropLast = a := by simp
+
+theorem splitOn_sl (c : Char) (a r : Str) (ha : c ∉ a) : splitOn c (a ++ c :: r) = a :: splitOn c r := by
+  induction a with
+  | nil => simp [splitOn]
+  | cons x xs ih =>
+    simp only [List.mem_cons, not_or] at ha
+    simp only [List.cons_append, splitOn]
+    rw [if_neg (fun e => ha.1 e.symm), ih ha.2]
+
+theorem splitOn_parts_not_mem (c : Char) (s : Str) : ∀ p ∈ splitOn c s, c ∉ p := by
+  induction s with
+  | nil => simp [splitOn]
+  | cons x xs ih =>
+    simp only [splitOn]
+    by_cases hx : x = c
+    · simp only [hx, if_true, List.mem_cons]
+      rintro p (rfl | hp)
+      · simp
+      · exact ih p hp
+    · simp only [hx, if_false]
+      cases hs : splitOn c xs with
+      | nil => exact absurd hs (splitOn_ne_nil c xs)
+      | cons h t =>
+        rw [hs] at ih
+        simp only [List.mem_cons]
+        rintro p (rfl | hp)
+        · simp only [List.mem_cons, not_or]
+          exact ⟨fun e => hx e.symm, ih h (by simp)⟩
+        · exact ih p (by simp [hp])
+
+theorem mp_lit_nil (ps : List Piece) (s : Str) : matchPieces (.lit [] :: ps) s = matchPieces ps s := by
+  simp [matchPieces]
+
+/-- A URI-SAN suffix that starts with `/ns/` starts at the namespace segment (identities with
+    trust domain and namespace other than "ns"). -/
+theorem ns_anchor (i : Identity) (htd : '/' ∉ i.td) (hns : '/' ∉ i.ns) (hsa : '/' ∉ i.sa)
+    (h1 : i.td ≠ "ns".toList) (h2 : i.ns ≠ "ns".toList) (r : Str)
+    (h : ('/' :: sl "ns".toList r) <:+ i.uriSan) : r = sl i.ns (sl "sa".toList i.sa) := by
+  have e3 : '/' ∉ "ns".toList := by decide
+  have e4 : '/' ∉ "sa".toList := by decide
+  have e0 : '/' ∉ ([] : Str) := by simp
+  have hh : ('/' :: sl "ns".toList r).head? = some '/' := rfl
+  rcases uriSan_slash_suffixes i htd hns hsa _ hh h with h | h | h | h | h | h
+  all_goals simp only [List.cons.injEq, true_and] at h
+  · rw [sl_inj e3 e0] at h; exact absurd h.1 (by decide)
+  · rw [sl_inj e3 htd] at h; exact absurd h.1.symm h1
+  · rw [sl_inj e3 e3] at h; exact h.2
+  · rw [sl_inj e3 hns] at h; exact absurd h.1.symm h2
+  · rw [sl_inj e3 e4] at h; exact absurd h.1 (by decide)
+  · exact absurd h (not_sl_eq hsa)
+
+/-- Where the '/' after a run `y` can be in `<ns>/sa/<sa>`. -/
+theorem slash_positions (y rest N S : Str) (hN : '/' ∉ N) (hS : '/' ∉ S)
+    (h : y ++ '/' :: rest = sl N (sl "sa".toList S)) : y = N ∨ y = N ++ '/' :: "sa".toList := by
+  have hsa : '/' ∉ "sa".toList := by decide
+  have h' : N ++ '/' :: (sl "sa".toList S) = y ++ '/' :: rest := h.symm
+  rcases List.append_eq_append_iff.1 h' with ⟨a', hy, hx⟩ | ⟨c', hN', hx⟩
+  · cases a' with
+    | nil => left; simpa using hy
+    | cons c a'' =>
+      simp only [List.cons_append, List.cons.injEq] at hx
+      obtain ⟨rfl, hx⟩ := hx
+      have hx' : "sa".toList ++ '/' :: S = a'' ++ '/' :: rest := hx
+      rcases List.append_eq_append_iff.1 hx' with ⟨b', hb, hz⟩ | ⟨d', hd, hz⟩
+      · cases b' with
+        | nil =>
+          right
+          rw [hy]
+          simp only [List.append_nil] at hb
+          rw [hb]
+        | cons c2 b'' =>
+          simp only [List.cons_append, List.cons.injEq] at hz
+          exact absurd (by rw [hz.2]; simp) hS
+      · cases d' with
+        | nil =>
+          right
+          rw [hy]
+          simp only [List.append_nil] at hd
+          rw [← hd]
+        | cons c2 d'' =>
+          simp only [List.cons_append, List.cons.injEq] at hz
+          obtain ⟨rfl, -⟩ := hz
+          exact absurd (by rw [hd]; simp) hsa
+  · cases c' with
+    | nil => left; simpa using hN'.symm
+    | cons c c'' =>
+      simp only [List.cons_append, List.cons.injEq] at hx
+      obtain ⟨rfl, -⟩ := hx
+      exact absurd (by rw [hN']; simp) hN
+
+theorem rx_ns_complete_parts (parts : List Str) (i : Identity) (hne : parts ≠ [])
+    (h : globParts parts i.ns = true) : Rx.matches (.nsGlob parts) i.uriSan = true := by
+  simp only [Rx.matches, Rx.alts, List.any_cons, List.any_nil, Bool.or_false, List.cons_append,
+    List.nil_append]
+  rw [mp_star]
+  refine ⟨"/ns/".toList ++ (i.ns ++ '/' :: sl "sa".toList i.sa), ?_, ?_⟩
+  · rw [uriSan_sl]
+    refine ⟨"spiffe:".toList ++ '/' :: '/' :: i.td, ?_⟩
+    have h2 : "/ns/".toList = '/' :: ("ns".toList ++ ['/']) := by decide
+    rw [h2]
+    simp only [sl, List.append_assoc, List.cons_append, List.nil_append]
+  · rw [mp_lit]
+    refine ⟨_, rfl, ?_⟩
+    apply mp_glob_append _ _ _ _ hne h
+    rw [mp_lit]
+    exact ⟨sl "sa".toList i.sa, rfl, mp_star_end _⟩
+
+/-- `.*/ns/<p>.*/.*` (value `p*`, incl. `*`): exact. -/
+theorem rx_ns_prefix (p : Str) (i : Identity) (hp : '/' ∉ p)
+    (htd : '/' ∉ i.td) (hns : '/' ∉ i.ns) (hsa : '/' ∉ i.sa)
+    (h1 : i.td ≠ "ns".toList) (h2 : i.ns ≠ "ns".toList) :
+    Rx.matches (.nsGlob [p, []]) i.uriSan = hasPrefix p i.ns := by
+  rw [Bool.eq_iff_iff]
+  constructor
+  · intro h
+    simp only [Rx.matches, Rx.alts, globPieces, List.any_cons, List.any_nil, Bool.or_false,
+      List.cons_append, List.nil_append] at h
+    rw [mp_star] at h
+    obtain ⟨t, hts, hm⟩ := h
+    rw [mp_lit] at hm
+    obtain ⟨r, rfl, hm⟩ := hm
+    rw [mp_lit] at hm
+    obtain ⟨r2, rfl, -⟩ := hm
+    rw [lit_ns_eq] at hts
+    have := ns_anchor i htd hns hsa h1 h2 _ hts
+    rw [hasPrefix, List.isPrefixOf_iff_prefix]
+    exact prefix_of_slashFree_sl hp ⟨r2, this⟩
+  · intro h
+    apply rx_ns_complete_parts [p, []] i (by simp)
+    simp only [globParts, Bool.and_eq_true, anySuffix_iff]
+    exact ⟨h, [], List.nil_suffix, by simp⟩
+
+/-- `.*/ns/.*<q>/.*` (value `*q`): exact unless `q` is `a` or `sa` - then `.*` can run over the
+    '/' after the namespace and `q` is found at the end of `<ns>/sa` (finding 1). -/
+theorem rx_ns_suffix (q : Str) (i : Identity) (hq : '/' ∉ q) (hqne : q ≠ [])
+    (hqa : q ≠ "a".toList) (hqsa : q ≠ "sa".toList)
+    (htd : '/' ∉ i.td) (hns : '/' ∉ i.ns) (hsa : '/' ∉ i.sa)
+    (h1 : i.td ≠ "ns".toList) (h2 : i.ns ≠ "ns".toList) :
+    Rx.matches (.nsGlob [[], q]) i.uriSan = hasSuffix q i.ns := by
+  rw [Bool.eq_iff_iff]
+  constructor
+  · intro h
+    simp only [Rx.matches, Rx.alts, globPieces, List.any_cons, List.any_nil, Bool.or_false,
+      List.cons_append, List.nil_append] at h
+    rw [mp_star] at h
+    obtain ⟨t, hts, hm⟩ := h
+    rw [mp_lit] at hm
+    obtain ⟨r, rfl, hm⟩ := hm
+    rw [mp_lit_nil, mp_star] at hm
+    obtain ⟨t2, ht2, hm⟩ := hm
+    rw [mp_lit] at hm
+    obtain ⟨r3, rfl, hm⟩ := hm
+    rw [mp_lit] at hm
+    obtain ⟨r4, rfl, -⟩ := hm
+    rw [lit_ns_eq] at hts
+    have hr := ns_anchor i htd hns hsa h1 h2 _ hts
+    obtain ⟨x, hx⟩ := ht2
+    -- r = x ++ q ++ "/" ++ r4 = <ns>/sa/<sa>
+    have hpos := slash_positions (x ++ q) r4 i.ns i.sa hns hsa (by
+      rw [← hr, ← hx]; simp)
+    rw [hasSuffix, List.isSuffixOf_iff_suffix]
+    rcases hpos with hpos | hpos
+    · exact ⟨x, hpos⟩
+    · -- q is a slash-free suffix of <ns>/sa: so of "sa"
+      have hsuf : q <:+ sl i.ns "sa".toList := ⟨x, hpos⟩
+      have hq2 : q <:+ "sa".toList := suffix_of_slashFree_sl hq hsuf
+      have : q = [] ∨ q = "a".toList ∨ q = "sa".toList := by
+        have hsa2 : "sa".toList = ['s', 'a'] := by decide
+        have ha2 : "a".toList = ['a'] := by decide
+        rw [hsa2] at hq2 ⊢
+        rw [ha2]
+        rw [List.suffix_cons_iff] at hq2
+        rcases hq2 with h | h
+        · exact Or.inr (Or.inr h)
+        · rw [List.suffix_cons_iff] at h
+          rcases h with h | h
+          · exact Or.inr (Or.inl h)
+          · exact Or.inl (by simpa using h)
+      rcases this with h | h | h
+      · exact absurd h hqne
+      · exact absurd h hqa
+      · exact absurd h hqsa
+  · intro h
+    apply rx_ns_complete_parts [[], q] i (by simp)
+    rw [hasSuffix, List.isSuffixOf_iff_suffix] at h
+    simp only [globParts, Bool.and_eq_true, anySuffix_iff, List.length_nil, List.drop_zero]
+    exact ⟨by simp [hasPrefix], q, h, by simp⟩
+
 end IstioModel.C08
